@@ -1,11 +1,14 @@
 import Ecal.Drivers.Util
 import Ecal.Model.Cascade
+import Ecal.Model.CascadeShared
+import Std.Data.HashSet
 /-!
 Driver of C02 (payload format: see `go/cmd/harness/c02.go`).
 
 * `driver C02`        : for every cascade plan of the case, executes the plan on the transition
-  system `Ecal.Cascade.step` (sequential schedule on worker 0 — by the theorems of `Props.C02`
-  the observables do not depend on the schedule) and prints the expected canonical result.
+  system `Ecal.Cascade.step` (sequential schedule on worker 0 — the quantities printed are fixed by the
+  theorems of `Props.C02` in every final state: `errors_exact`, `finish_notification_exactly_once`,
+  `all_handed_monitors_finish`, `wait_after_cascade`) and prints the expected canonical result.
 * `driver C02 replay` : payload = `<plan> ~ <trace> ; <trace> …`; maps the recorded trace tokens of
   every cascade to events of the transition system and replays them with `step`, checking the
   recorded counter values. Result: `ok <number of events>` or `reject <cascade> <position> <token> <why>`.
@@ -17,36 +20,69 @@ structure Node where
   parent : Option Nat
   prule  : Nat
   kind   : Char
+  /-- outcome per rule: true = returns nil -/
   rules  : List Bool
+  /-- the rule characters (o x O X r) -/
+  raw    : List Char
+  /-- c child monitor; n nested wait; d/l/u detached (new root monitor) -/
+  link   : Char
   deriving Repr
 
+/-- a UNIT: the cascade of one root monitor — the outer cascade of a plan cascade, or a nested /
+    detached cascade started by an action on a new root monitor -/
 structure Casc where
-  wait  : Bool
-  nodes : Array Node
+  wait     : Bool
+  detached : Bool
+  root     : Nat
+  nodes    : Array Node
+  /-- (unit, node, rule) whose action starts this unit -/
+  startedBy : Option (Nat × Nat × Nat)
 
 structure Plan where
   workers   : Nat
   failFirst : Bool
   ecal      : Bool
+  noHandler : Bool
   cascs     : List Casc
 
 def parseNode (s : String) : Option Node :=
-  match s.splitOn "." with
-  | [p, r, k, rs] =>
+  let f := s.splitOn "."
+  match f with
+  | p :: r :: k :: rs :: rest =>
     let kind := k.toList.headD 't'
-    let rules := if rs = "-" then [] else rs.toList.map (· == 'o')
-    if p = "-" then some { parent := none, prule := 0, kind, rules }
+    let raw := if rs = "-" then [] else rs.toList
+    let rules := raw.map fun ch => ch == 'o' || ch == 'O'
+    let link := (rest.head?.bind (·.toList.head?)).getD 'c'
+    if p = "-" then some { parent := none, prule := 0, kind, rules, raw, link := 'c' }
     else do
       let p ← p.toNat?
       let r ← r.toNat?
-      some { parent := some p, prule := r, kind, rules }
+      some { parent := some p, prule := r, kind, rules, raw, link }
   | _ => none
 
-def parseCasc (s : String) : Option Casc :=
+/-- the units of one plan cascade, in node order; `base` = index of the first one in the flat list -/
+def parseCasc (base : Nat) (s : String) : Option (List Casc) :=
   match s.splitOn "=" with
   | [m, ns] => do
     let nodes ← (ns.splitOn "/").mapM parseNode
-    some { wait := m = "w", nodes := nodes.toArray }
+    let arr := nodes.toArray
+    -- owner unit (local index) of every node
+    let mut owner : Array Nat := #[]
+    let mut units : List Casc := []
+    let mut ni := 0
+    for nd in nodes do
+      match nd.parent with
+      | none =>
+        owner := owner.push units.length
+        units := units ++ [{ wait := m = "w", detached := false, root := ni, nodes := arr, startedBy := none }]
+      | some pn =>
+        if nd.link != 'c' then
+          owner := owner.push units.length
+          units := units ++ [{ wait := nd.link == 'n', detached := nd.link != 'n', root := ni, nodes := arr,
+                               startedBy := some (base + owner.getD pn 0, pn, nd.prule) }]
+        else owner := owner.push (owner.getD pn 0)
+      ni := ni + 1
+    some units
   | _ => none
 
 def parsePlan (s : String) : Option Plan :=
@@ -55,19 +91,24 @@ def parsePlan (s : String) : Option Plan :=
     let mut workers := 1
     let mut ff := false
     let mut ecal := false
+    let mut noHandler := false
     for h in hdr.splitOn "," do
       let v := ((h.drop 1).toString.toNat?).getD 0
       if h.startsWith "W" then workers := v
       if h.startsWith "F" then ff := v == 1
       if h.startsWith "M" then ecal := v == 1
-    let cascs ← cs.mapM parseCasc
-    some { workers, failFirst := ff, ecal, cascs }
+      if h.startsWith "H" then noHandler := v == 0
+    let mut cascs : List Casc := []
+    for c in cs do
+      let us ← parseCasc cascs.length c
+      cascs := cascs ++ us
+    some { workers, failFirst := ff, ecal, noHandler, cascs }
   | _ => none
 
 def childrenOf (c : Casc) (n k : Nat) : List Nat :=
   (List.range c.nodes.size).filter fun i =>
     match c.nodes[i]? with
-    | some nd => nd.parent == some n && nd.prule == k
+    | some nd => nd.parent == some n && nd.prule == k && nd.link == 'c'
     | none => false
 
 /-- the `addEvent` event of plan node `n` for monitor `m` -/
@@ -135,43 +176,93 @@ def insertSorted (x : Nat × Nat) : List (Nat × Nat) → List (Nat × Nat)
 
 def sortPairs (l : List (Nat × Nat)) : List (Nat × Nat) := l.foldr insertSorted []
 
-/-- run the plan of one cascade to its end; result line of the cascade -/
+/-- the canonical result line of a cascade read off a final state -/
+def resultOf (p : Plan) (c : Casc) (s : State) (nodeOf : List Nat) : String :=
+  let rootTrig := match s.mons[0]? with
+    | some r => !r.skipped
+    | none => false
+  let returned := if c.wait then s.waitReturned else (s.handlerCalls ≥ 1 || !rootTrig)
+  if !returned || s.panicked then "ret=0"
+  else
+    let handed := s.mons.filter fun m => m.phase != .fresh
+    let fin := handed.filter fun m => m.phase.finished
+    let pending := s.mons.filter fun m => !m.todo.isEmpty
+    let errs := (allErrors s).flatMap fun (i, e) =>
+      match e with
+      | some rs => rs.map fun r => (nodeOf.getD i 9999, r)
+      | none => [(9999, 9999)]
+    let errs := sortPairs errs
+    -- error class: e = the planned error, r = (ECAL) the sink ended in `return`
+    let cls := fun (n k : Nat) => match (c.nodes[n]?).bind (·.raw[k]?) with
+      | some 'r' => "r"
+      | _ => "e"
+    let es := if errs.isEmpty then "-" else ",".intercalate (errs.map fun (n, k) => s!"{n}.{k}{cls n k}")
+    -- through ECAL sinks the root monitor is created inside the builtin: handler and monitors are not observable
+    let hf := if p.ecal then "handler=- fin=-"
+      else if p.noHandler && c.wait && c.startedBy.isNone then s!"handler=- fin={fin.length}/{handed.length}"
+      else s!"handler={s.handlerCalls} fin={fin.length}/{handed.length}"
+    s!"ret=1 early={pending.length} {hf} errs={es} foreign=0 nil=0"
+
+/-- run the plan of one unit to its end on the transition system -/
+def runUnit (p : Plan) (c : Casc) : Option (State × List Nat) := do
+  let s := init p.workers p.failFirst
+  let s ← if c.wait then step s .register else some s
+  let s ← match addEv c 0 c.root with
+    | .addEvent _ true _ => step s .regHandler   -- AddEvent of a triggering root event: observer first
+    | _ => some s
+  let s ← step s (addEv c 0 c.root)
+  let work := match s.mons[0]? with
+    | some r => if r.phase == .queued then [0] else []
+    | none => []
+  let (s, nodeOf) ← taskLoop c 100000 work s #[c.root]
+  let s := repeatStep .post 2 s
+  let s := repeatStep (.observerRuns .queue) 1000 s
+  let s := repeatStep (.observerRuns .handler) 2 s
+  let s := repeatStep (.observerRuns .wait) 2 s
+  let s := repeatStep .waitReturns 1 s
+  some (s, nodeOf.toList)
+
+/-- number of rules of plan node `n` that execute (failOnFirstError cuts after the first failure) -/
+def rulesRun (p : Plan) (c : Casc) (n : Nat) : Nat :=
+  match c.nodes[n]? with
+  | some nd =>
+    if nd.kind != 't' then 0
+    else if p.failFirst then
+      match nd.rules.findIdx? (!·) with
+      | some i => i + 1
+      | none => nd.rules.length
+    else nd.rules.length
+  | none => 0
+
+/-- did rule `k` of plan node `n` run in the final state of its unit? -/
+def ranRule (p : Plan) (c : Casc) (s : State) (nodeOf : List Nat) (n k : Nat) : Bool :=
+  (nodeOf.zip s.mons).any (fun (nd, m) => nd == n && m.phase.finished && !m.skipped) && k < rulesRun p c n
+
+/-- result line of the unit (stand-alone: outer cascade, or a unit known to be started) -/
 def expected (p : Plan) (c : Casc) : String :=
-  let r : Option (State × Array Nat) := do
-    let s := init p.workers p.failFirst
-    let s ← if c.wait then step s .register else some s
-    let s ← step s (addEv c 0 0)
-    let work := match s.mons[0]? with
-      | some r => if r.phase == .queued then [0] else []
-      | none => []
-    let (s, nodeOf) ← taskLoop c 100000 work s #[0]
-    let s := repeatStep .post 2 s
-    let s := repeatStep (.observerRuns .queue) 1000 s
-    let s := repeatStep (.observerRuns .handler) 2 s
-    let s := repeatStep (.observerRuns .wait) 2 s
-    let s := repeatStep .waitReturns 1 s
-    some (s, nodeOf)
-  match r with
+  match runUnit p c with
   | none => "model-stuck"
   | some (s, nodeOf) =>
-    let rootTrig := match s.mons[0]? with
-      | some r => !r.skipped
-      | none => false
-    let returned := if c.wait then s.waitReturned else (s.handlerCalls ≥ 1 || !rootTrig)
-    if !returned || s.panicked then "ret=0"
-    else
-      let handed := s.mons.filter fun m => m.phase != .fresh
-      let fin := handed.filter fun m => m.phase.finished
-      let pending := s.mons.filter fun m => !m.todo.isEmpty
-      let errs := (allErrors s).flatMap fun (i, e) =>
-        match e with
-        | some rs => rs.map fun r => (nodeOf.getD i 9999, r)
-        | none => [(9999, 9999)]
-      let errs := sortPairs errs
-      let es := if errs.isEmpty then "-" else ",".intercalate (errs.map fun (n, k) => s!"{n}.{k}e")
-      -- through ECAL sinks the root monitor is created inside the builtin: handler and monitors are not observable
-      let hf := if p.ecal then "handler=- fin=-" else s!"handler={s.handlerCalls} fin={fin.length}/{handed.length}"
-      s!"ret=1 early={pending.length} {hf} errs={es} foreign=0 nil=0"
+    if c.detached then
+      let done := (nodeOf.zip s.mons).foldl (fun a (nd, m) => if m.skipped then a else a + rulesRun p c nd) 0
+      s!"det done={done}"
+    else resultOf p c s nodeOf
+
+/-- all units of the plan, in order; a unit runs iff the rule that starts it ran in its parent unit -/
+def expectedAll (p : Plan) : List String :=
+  let rec go (cs : List Casc) (acc : List (Option (State × List Nat)) ) (out : List String) : List String :=
+    match cs with
+    | [] => out.reverse
+    | c :: rest =>
+      let started := match c.startedBy with
+        | none => true
+        | some (pu, n, k) =>
+          match acc.reverse[pu]?, p.cascs[pu]? with
+          | some (some (s, nodeOf)), some pc => ranRule p pc s nodeOf n k
+          | _, _ => false
+      if started then go rest (runUnit p c :: acc) (expected p c :: out)
+      else go rest (none :: acc) ("notrun" :: out)
+  go p.cascs [] []
 
 def nontrivial (p : Plan) : Bool :=
   p.cascs.any fun c => c.nodes.size ≥ 3 && c.nodes.any fun n => n.rules.any (!·)
@@ -180,25 +271,172 @@ def runCase (payload : String) : String :=
   match parsePlan payload with
   | none => "bad-payload"
   | some p =>
-    " ; ".intercalate (p.cascs.map (expected p)) ++ (if nontrivial p then "\tnt=1" else "")
+    " ; ".intercalate (expectedAll p) ++ (if nontrivial p then "\tnt=1" else "")
+
+/-! ### exhaustive exploration of a plan on the transition system -/
+
+structure XState where
+  s : State
+  nodeOf : List Nat
+
+def phaseTag : Phase → Nat
+  | .fresh => 0 | .queued => 1 | .running _ => 2 | .failing _ => 3 | .errSet _ => 4 | .notifying _ => 5 | .done => 6
+
+def b2n (b : Bool) : Nat := if b then 1 else 0
+
+/-- canonical key of a state: monitors listed by PLAN NODE (creation order and worker identities
+    do not matter), then the scalar fields -/
+def key (c : Casc) (x : XState) : List Nat :=
+  let s := x.s
+  let mons := (List.range c.nodes.size).flatMap fun n =>
+    match (x.nodeOf.zip s.mons).find? (fun (nd, _) => nd == n) with
+    | some (_, m) => [1, phaseTag m.phase, m.todo.length, m.failed.foldl (fun a r => a + 2 ^ r) 0, b2n m.skipped,
+                      b2n m.inErrors, b2n m.err.isSome]
+    | none => [0]
+  mons ++ [s.unfinished, s.postPending, s.posted, s.obsWait, s.obsHandler, s.obsQueue, b2n s.hasQueue, s.dWait,
+           s.dHandler, s.dQueue, b2n s.waiting, b2n s.handlerReg, s.released, b2n s.waitReturned, s.handlerCalls,
+           b2n s.panicked]
+
+/-- plan node of the next child the action executing under monitor `i` creates, if any -/
+def nextKid (c : Casc) (x : XState) (i : Nat) (m : Mon) : Option Nat :=
+  match m.todo with
+  | [] => none
+  | k :: _ =>
+    let kids := childrenOf c (x.nodeOf.getD i 0) k
+    let created := (x.nodeOf.zip x.s.mons).filter fun (nd, cm) => cm.parent == some i && kids.contains nd
+    kids[created.length]?
+
+/-- the events the code can perform next in state `x` when it executes plan `c`: each goroutine
+    (adder, each worker inside a task, the poster) has one next step; `pop` uses the lowest free
+    worker (workers are symmetric); `dropQueue` whenever the queue entry is empty -/
+def enabledEvents (p : Plan) (c : Casc) (x : XState) : List (Event × Option Nat) :=
+  let s := x.s
+  let rootFresh : Bool := match s.mons[0]? with
+    | some r => r.phase == .fresh
+    | none => false
+  let rootEv := addEv c 0 c.root
+  let adder : List (Event × Option Nat) :=
+    if rootFresh == true then
+      if c.wait && !s.waiting then [(.register, none)]
+      else match rootEv with
+        | .addEvent _ true _ => if s.handlerReg then [(rootEv, none)] else [(.regHandler, none)]
+        | _ => [(rootEv, none)]
+    else if c.wait && s.released > 0 && !s.waitReturned then [(.waitReturns, none)] else []
+  let freeW := (List.range p.workers).find? fun w => s.workerFree w
+  let perMon := (List.range s.mons.length).flatMap fun i =>
+    match s.mons[i]? with
+    | none => []
+    | some m =>
+      match m.phase with
+      | .queued => match freeW with
+        | some w => [(Event.pop w i, none)]
+        | none => []
+      | .running _ =>
+        match m.todo with
+        | [] => [(.taskDone i, none)]
+        | k :: _ =>
+          -- a child created by this action and not yet added?
+          match (List.range s.mons.length).find? (fun j => match s.mons[j]? with
+              | some cm => cm.parent == some i && cm.phase == .fresh
+              | none => false) with
+          | some j => [(addEv c j (x.nodeOf.getD j 0), none)]
+          | none =>
+            match nextKid c x i m with
+            | some nd => [(.newChild i, some nd)]
+            | none =>
+              let ok := match c.nodes[x.nodeOf.getD i 0]? with
+                | some nd => nd.rules.getD k true
+                | none => true
+              [(.ruleReturns i ok, none)]
+      | .failing _ => [(.setErrors i, none)]
+      | .errSet _ => [(.errFinish i, none)]
+      | .notifying _ => [(.notified i, none)]
+      | _ => []
+  let pump : List (Event × Option Nat) :=
+    (if s.postPending > 0 then [(Event.post, none)] else []) ++
+    (if s.dWait > 0 then [(.observerRuns .wait, none)]
+     else if s.dHandler > 0 then [(.observerRuns .handler, none)]
+     else if s.dQueue > 0 then [(.observerRuns .queue, none)] else []) ++
+    (if s.hasQueue && !s.anyQueued then [(.dropQueue, none)] else [])
+  adder ++ perMon ++ pump
+
+def succs (p : Plan) (c : Casc) (x : XState) : List XState :=
+  (enabledEvents p c x).filterMap fun (e, nd) =>
+    match step x.s e with
+    | some s' => some { s := s', nodeOf := match nd with | some n => x.nodeOf ++ [n] | none => x.nodeOf }
+    | none => none
+
+structure Explored where
+  seen : Std.HashSet (List Nat) := {}
+  trans : Nat := 0
+  terminal : Nat := 0
+  outcomes : List String := []
+  stuck : Nat := 0      -- enabled event list non-empty but `step` refused one of them
+  bad : Nat := 0        -- a state violating an invariant checked at run time
+
+/-- invariants re-checked on every explored state (they are theorems; this guards the driver) -/
+def stateOk (s : State) : Bool :=
+  s.unfinished == (s.mons.filter fun m => !m.phase.finished).length && s.posted ≤ 1 && s.handlerCalls ≤ 1 &&
+  s.released ≤ 1 && !s.panicked && (s.released == 0 || s.mons.all fun m => m.phase.finished && m.todo.isEmpty)
+
+partial def exploreLoop (p : Plan) (c : Casc) (work : List XState) (acc : Explored) : Explored :=
+  match work with
+  | [] => acc
+  | x :: rest =>
+    let evs := enabledEvents p c x
+    let nexts := succs p c x
+    let acc := { acc with trans := acc.trans + nexts.length,
+                          stuck := acc.stuck + (evs.length - nexts.length),
+                          bad := acc.bad + (if stateOk x.s then 0 else 1) }
+    let acc := if evs.isEmpty then
+        let r := resultOf p c x.s x.nodeOf
+        { acc with terminal := acc.terminal + 1, outcomes := if acc.outcomes.contains r then acc.outcomes else r :: acc.outcomes }
+      else acc
+    let (work', acc) := nexts.foldl (fun (w, a) y =>
+      let k := key c y
+      if a.seen.contains k then (w, a) else (y :: w, { a with seen := a.seen.insert k })) (rest, acc)
+    exploreLoop p c work' acc
+
+def explore (p : Plan) (c : Casc) : Explored :=
+  let x0 : XState := { s := init p.workers p.failFirst, nodeOf := [c.root] }
+  exploreLoop p c [x0] { seen := ({} : Std.HashSet (List Nat)).insert (key c x0) }
+
+/-- `driver C02 explore`: payload = plan with ONE cascade -/
+def exploreCase (payload : String) : String :=
+  match parsePlan payload with
+  | some p =>
+    match p.cascs with
+    | [c] =>
+      let r := explore p c
+      let same := r.outcomes.length == 1 && r.outcomes.head? == some (expected p c)
+      s!"states={r.seen.size} trans={r.trans} terminal={r.terminal} outcomes={r.outcomes.length} same={b2n same} stuck={r.stuck} bad={r.bad}"
+    | _ => "bad-payload"
+  | none => "bad-payload"
 
 /-! ### trace replay -/
 
 def nats (s : String) : List Nat := (s.splitOn ".").map fun x => x.toNat?.getD 9999
 
-def chk (b : Bool) (msg : String) : Except String Unit := if b then .ok () else .error msg
+/-- replay monad: errors + the log of model events performed -/
+abbrev RM := StateT (List Event) (Except String)
 
-def stepE (s : State) (e : Event) : Except String State :=
+def chk (b : Bool) (msg : String) : RM Unit := if b then pure () else throw msg
+
+def stepE (s : State) (e : Event) : RM State :=
   match step s e with
-  | some s' => .ok s'
-  | none => .error s!"event not enabled in the model: {repr e}"
+  | some s' => do modify (e :: ·); pure s'
+  | none => throw s!"event not enabled in the model: {repr e}"
 
-def replayTok (c : Casc) (s : State) (tok : String) : Except String State := do
+def replayTok (c : Casc) (s : State) (tok : String) : RM State := do
   let kind := tok.toList.headD ' '
   let a := nats (tok.drop 1).toString
   let phaseOf (m : Nat) : Option Phase := (s.mons[m]?).map (·.phase)
   match kind, a with
   | 'W', _ => stepE s .register
+  | 'J', _ => stepE s .regHandler
+  | 'K', [m] => do
+    chk (match phaseOf m with | some .fresh => false | none => false | _ => true) "AddTask returned for a monitor that was not handed over"
+    pure s
   | 'R', [n] => do
     let s' ← stepE s .waitReturns
     chk (n == (allErrors s').length) s!"AllErrors after the return: model {(allErrors s').length} entries, code {n}"
@@ -206,13 +444,18 @@ def replayTok (c : Casc) (s : State) (tok : String) : Except String State := do
   | 'P', _ => stepE s .post
   | 'D', _ => stepE s .dropQueue
   | 'O', _ =>
+    -- the pump calls the callbacks of its snapshot in registration order: wait, handler, queue
     if tok == "Ow" then stepE s (.observerRuns .wait)
-    else if tok == "Oh" then stepE s (.observerRuns .handler)
-    else stepE s (.observerRuns .queue)
+    else if tok == "Oh" then do
+      chk (s.dWait == 0) "handler callback before the wait callback"
+      stepE s (.observerRuns .handler)
+    else do
+      chk (s.dWait == 0 && s.dHandler == 0) "queue callback before the wait/handler callbacks"
+      stepE s (.observerRuns .queue)
   | 'A', [m, n] =>
     match addEv c m n with
     | .addEvent m true rs => stepE s (.addEvent m true rs)
-    | _ => .error "a task was queued for an event the plan calls non-triggering"
+    | _ => throw "a task was queued for an event the plan calls non-triggering"
   | 'C', [p, m, u] => do
     chk (m == s.mons.length) "child id out of creation order"
     let s' ← stepE s (.newChild p)
@@ -231,15 +474,17 @@ def replayTok (c : Casc) (s : State) (tok : String) : Except String State := do
       chk (mon.todo.isEmpty) "ProcessEvent returned with rules left"
       chk (mon.failed.length == nerr) s!"number of errors: model {mon.failed.length}, code {nerr}"
       if nerr > 0 then stepE s (.taskDone m) else pure s
-    | none => .error "unknown monitor"
+    | none => throw "unknown monitor"
   | 'T', [m] => stepE s (.setErrors m)
   | 'H', [m] => stepE s (.notified m)
-  | 'F', [m, u, _n] => do
+  | 'F', [m, u, n] => do
     let s' ← match phaseOf m with
-      | some .fresh => stepE s (.addEvent m false [])
+      | some .fresh => do
+        chk ((c.nodes[n]?).map (·.kind) == some 's') "Skip of an event the plan calls triggering"
+        stepE s (.addEvent m false [])
       | some (.running _) => stepE s (.taskDone m)
       | some (.errSet _) => stepE s (.errFinish m)
-      | _ => .error "descendantFinished for a monitor which cannot finish"
+      | _ => throw "descendantFinished for a monitor which cannot finish"
     chk (s'.unfinished == u) s!"unfinished after Finish: model {s'.unfinished}, code {u}"
     chk ((s'.mons[m]?).map (·.phase.finished) == some true) "monitor not finished after Finish"
     pure s'
@@ -248,47 +493,138 @@ def replayTok (c : Casc) (s : State) (tok : String) : Except String State := do
     pure s
   | 'X', [n] => do
     let s' ← stepE s .allErrors
-    chk (n ≤ (s.mons.filter fun m => !m.failed.isEmpty).length) "AllErrors returned more entries than failed tasks"
+    chk (1 ≤ n && n ≤ (s.mons.filter fun m => !m.failed.isEmpty).length) "AllErrors entries seen by the error observer: more than failed tasks, or none"
     pure s'
-  | _, _ => .error "unknown token"
+  | _, _ => throw "unknown token"
 
-def replayCasc (p : Plan) (c : Casc) (trace : String) : Except String Nat := do
-  let toks := if trace.trimAscii.toString.isEmpty then [] else trace.trimAscii.toString.splitOn ","
-  let mut s := init p.workers p.failFirst
+/-- replay the tokens of one cascade; returns (number of tokens, legacy?, keys of the states visited when `collect`) -/
+def replayCasc (p : Plan) (c : Casc) (toks : List String) (collect : Bool := false) :
+    Except String (Nat × Bool × List (List Nat)) := do
+  let mut x : XState := { s := init p.workers p.failFirst, nodeOf := [c.root] }
   let mut k := 0
+  let mut keys : List (List Nat) := if collect then [key c x] else []
+  -- a tree without the call sites `cascade.handler.registered` / `cascade.added` (hooks/C02b.patch):
+  -- the registration of the finish-handler observer is not visible, assume it where the code has it
+  let legacy := toks.any (·.startsWith "A") && !(toks.any (·.startsWith "K"))
   for t in toks do
-    match replayTok c s t with
-    | .ok s' => s := s'
+    if legacy && t.startsWith "A0." then
+      match step x.s .regHandler with
+      | some s' => x := { x with s := s' }
+      | none => throw s!"{k} {t} regHandler not enabled"
+    -- plan node of a child created by this token
+    let nd : Option Nat := if t.startsWith "C" then
+        match nats (t.drop 1).toString with
+        | [pm, _, _] => match x.s.mons[pm]? with
+          | some m => (nextKid c x pm m).orElse fun _ => some 9999
+          | none => some 9999
+        | _ => some 9999
+      else none
+    match (replayTok c x.s t).run [] with
+    | .ok (s', _) =>
+      x := { s := s', nodeOf := match nd with | some n => x.nodeOf ++ [n] | none => x.nodeOf }
+      if collect then keys := key c x :: keys
     | .error e => throw s!"{k} {t} {e}"
     k := k + 1
+  -- a unit that was never started has no events
+  if toks.isEmpty && c.startedBy.isSome then return (0, false, keys)
   -- end of the recorded run: the cascade is over
-  chk (s.posted == 1) "finished message not posted exactly once at the end of the trace"
-  chk (s.mons.all fun m => m.phase.finished) "unfinished monitor at the end of the trace"
-  chk (!c.wait || s.waitReturned) "wait did not return in the trace"
-  chk (!s.panicked) "model assertion failed"
+  let s := x.s
+  if s.posted != 1 then throw "finished message not posted exactly once at the end of the trace"
+  if !(s.mons.all fun m => m.phase.finished) then throw "unfinished monitor at the end of the trace"
+  if c.wait && !s.waitReturned then throw "wait did not return in the trace"
+  if s.panicked then throw "model assertion failed"
+  pure (k, legacy, keys)
+
+/-- a recorded trace is a global sequence `<cascade>:<token>,…` -/
+def parseTrace (t : String) : List (Nat × String) :=
+  if t.trimAscii.toString.isEmpty then [] else
+  (t.trimAscii.toString.splitOn ",").map fun x =>
+    match x.splitOn ":" with
+    | [ci, tok] => (ci.toNat?.getD 9999, tok)
+    | _ => (9999, x)
+
+/-- replay the GLOBAL trace of a case on the shared system `Conc` (one observer table, one queue
+    map, shared workers): every token's model events must also be steps of `Conc.step` — in
+    particular a `pop` needs its worker free in EVERY cascade — and the view of the stepping
+    cascade must equal the state the single-cascade replay computes (`conc_refines` at run time). -/
+def replayJoint (p : Plan) (toks : List (Nat × String)) : Except String Nat := do
+  let mut C : Conc := { workers := p.workers, failFirst := p.failFirst,
+                        roots := p.cascs.map fun _ => (init p.workers p.failFirst).local }
+  let legacy := toks.any (·.2.startsWith "A") && !(toks.any (·.2.startsWith "K"))
+  let mut k := 0
+  for (ci, t) in toks do
+    match p.cascs[ci]? with
+    | none => throw s!"{k} {t} unknown cascade"
+    | some c =>
+      if legacy && t.startsWith "A0." then
+        match C.step ci .regHandler with
+        | some C' => C := C'
+        | none => throw s!"{k} {t} regHandler not enabled in the shared system"
+      match C.view ci with
+      | none => throw s!"{k} {t} no such root"
+      | some v =>
+        match (replayTok c v t).run [] with
+        | .error e => throw s!"{k} {ci}:{t} {e}"
+        | .ok (v', evs) =>
+          for e in evs.reverse do
+            match C.step ci e with
+            | some C' => C := C'
+            | none => throw s!"{k} {ci}:{t} enabled for the cascade alone but not in the shared system (worker busy in another cascade?): {repr e}"
+          if C.view ci != some v' then throw s!"{k} {ci}:{t} view of the shared system differs from the cascade's state"
+    k := k + 1
+  if !(C.table.isEmpty) then throw "observer table not empty at the end of the run"
+  if !(C.pending.isEmpty) then throw "callbacks pending at the end of the run"
   pure k
 
 def replayCase (payload : String) : String :=
   match payload.splitOn " ~ " with
-  | [pl, trs] =>
+  | [pl, tr] =>
     match parsePlan pl with
     | none => "bad-payload"
     | some p =>
-      let traces := trs.splitOn " ; "
-      if traces.length != p.cascs.length then "bad-trace-count"
-      else
-        let rs := (p.cascs.zip traces).zipIdx.map fun ((c, t), i) =>
-          match replayCasc p c t with
-          | .ok n => (i, n, "")
-          | .error e => (i, 0, e)
-        match rs.find? (fun (_, _, e) => e != "") with
-        | some (i, _, e) => s!"reject {i} {e}"
-        | none => s!"ok {rs.foldl (fun acc (_, n, _) => acc + n) 0}"
+      let toks := parseTrace tr
+      let rs := p.cascs.zipIdx.map fun (c, i) =>
+        match replayCasc p c ((toks.filter (·.1 == i)).map (·.2)) with
+        | .ok (n, lg, _) => (i, n, lg, "")
+        | .error e => (i, 0, false, e)
+      match rs.find? (fun (_, _, _, e) => e != "") with
+      | some (i, _, _, e) => s!"reject {i} {e}"
+      | none =>
+        match replayJoint p toks with
+        | .error e => s!"reject joint {e}"
+        | .ok _ => s!"ok {rs.foldl (fun acc (_, n, _, _) => acc + n) 0} legacy={rs.foldl (fun acc (_, _, lg, _) => acc + b2n lg) 0}"
+  | _ => "bad-payload"
+
+/-- `driver C02 cover`: payload = `<plan with one cascade> ~ <trace> | <trace> | …` — how much of the
+    exhaustively explored state space of the plan did the recorded runs of the real code visit? -/
+def coverCase (payload : String) : String :=
+  match payload.splitOn " ~ " with
+  | [pl, trs] =>
+    match parsePlan pl with
+    | some p =>
+      match p.cascs with
+      | [c] =>
+        let r := explore p c
+        let traces := trs.splitOn " | "
+        let (visited, outside, rejected, distinct) := traces.foldl (fun (v, o, rj, d) t =>
+          let toks := (parseTrace t).map (·.2)
+          match replayCasc p c toks true with
+          | .ok (_, _, keys) =>
+            let (v, o) := keys.foldl (fun (v, o) k =>
+              if r.seen.contains k then (v.insert k, o) else (v, o + 1)) (v, o)
+            (v, o, rj, d.insert (toks.filter fun t => !(t.startsWith "X")))
+          | .error _ => (v, o, rj + 1, d)) (({} : Std.HashSet (List Nat)), 0, 0, ({} : Std.HashSet (List String)))
+        let same := r.outcomes.length == 1 && r.outcomes.head? == some (expected p c)
+        s!"reach={r.seen.size} visited={visited.size} outside={outside} traces={traces.length} rejected={rejected} distinct={distinct.size} trans={r.trans} terminal={r.terminal} same={b2n same} stuck={r.stuck} bad={r.bad}"
+      | _ => "bad-payload"
+    | none => "bad-payload"
   | _ => "bad-payload"
 
 def run (args : List String) : IO Unit :=
   match args with
   | ["replay"] => lineLoop replayCase
+  | ["explore"] => lineLoop exploreCase
+  | ["cover"] => lineLoop coverCase
   | _ => lineLoop runCase
 
 end Ecal.Drv.C02
